@@ -2,6 +2,7 @@
 //! (child module of `crate::device::net`, appended to the scratch copy of src/device/net/mod.rs).
 #![allow(dead_code, missing_docs, clippy::undocumented_unsafe_blocks)]
 use super::*;
+use crate::config::read_config;
 use crate::transport::DeviceType;
 use crate::verif_support::KHal;
 
